@@ -29,6 +29,23 @@ def on_quiescent(h: Any) -> None:
         if ws.queue and len(ws.in_progress) < ws.config.num_workers:
             h.violate("queued_work_with_free_capacity", {"step_kind": kind(name)},
                       f"step {name}: {len(ws.queue)} queued, {len(ws.in_progress)}/{ws.config.num_workers} running")
+    # a worker slot is held only by an invocation that is really executing: every task is blocked now, so each in-progress
+    # entry must have a live step body behind it (otherwise the step has lost capacity for good)
+    for name, ws in r.state.workers.items():
+        if name in h.live and len(ws.in_progress) > len(h.live[name]):
+            h.violate("slot_held_by_no_running_invocation", {"step_kind": kind(name)},
+                      f"step {name}: in_progress={[ip.worker_id for ip in ws.in_progress]} but only {len(h.live[name])} step bodies are executing; "
+                      f"queued behind it: {len(ws.queue)}")
+    # the run sleeps until its EARLIEST scheduled wake-up, not a later one: whatever the loop waits for (every task is
+    # blocked now), one of its timers must come due no later than that wake-up (or right now, if it is already overdue)
+    if r.scheduled_wakeups:
+        earliest = min(at for at, _, _ in r.scheduled_wakeups) - h.loop.base_wall
+        timers = h.loop.timer_deadlines()
+        if not any(d <= max(earliest, h.loop.vt) + 1e-6 for d in timers):
+            kinds = sorted({type(t).__name__ for _, _, t in r.scheduled_wakeups})
+            h.violate("loop_sleeps_past_earliest_wakeup", {"wakeups": kinds, "n_scheduled": min(len(r.scheduled_wakeups), 3)},
+                      f"earliest scheduled wake-up at +{earliest:.3f}s (of {[round(at - h.loop.base_wall, 3) for at, _, _ in r.scheduled_wakeups]}), "
+                      f"but the loop's timers are {[round(d, 3) for d in timers]} (now +{h.loop.vt:.3f}s)")
 
 
 def on_publish(h: Any, ev: Any, adapter: Any) -> None:
@@ -154,7 +171,8 @@ RULE = ("all schedules (gate releases, external sends, timer firings) of the eng
         "programs; at the instant an idle announcement is written to the stream the runner's queues, in-progress "
         "sets, pending-retry heap, tick buffer and mailbox are inspected; work conservation is checked in every "
         "quiescent live state; every retry wake-up is delivered at the virtual instant it was scheduled for (or, in the busy_tick programs where one tick keeps "
-        "the loop busy past the next scheduled wake-up, as soon as the loop is free again) and no live run ends up quiescent with an undelivered wake-up; non-trivial = at least one deviation from the default schedule")
+        "the loop busy past the next scheduled wake-up, as soon as the loop is free again) and no live run ends up quiescent with an undelivered wake-up; in every quiescent live state each in-progress slot has a "
+        "live step body behind it and the loop is armed for the earliest scheduled wake-up; non-trivial = at least one deviation from the default schedule")
 
 
 def programs(tier: str) -> list[Any]:
